@@ -62,7 +62,10 @@ func suiteAppAuth(e *vh.Env) {
 	e.OpenOps("appauth")
 	e.Result.Rule = "registered backends {b1: agent1/alice, b2: agent2/bob, b3: agent3/allUsers}; stored requests under b1 and b2; every combination of caller identity {none, agent1, agent2, stranger} x backend ID {b1, b2, unknown, empty} x request ID {b1's, b2's, unknown, empty} x endpoint {fetch, respond} (+ list where it cannot block), compared with the model and with the oracles: non-401 only for the registered backend user, a 401 leaves the datastore unchanged and its body does not depend on stored requests; admin API x {anonymous, signed-in non-admin, OAuth non-admin, admins}; end-user routing x {alice, bob, carol, anonymous}; non-trivial = call naming an existing backend with a wrong or missing identity, or a request ID of another backend"
 	fake.reset()
-	bs := []aeBackend{{"b1", "agent1@svc", "alice@x", []string{"/a"}}, {"b2", "agent2@svc", "bob@x", []string{"/b"}}, {"b3", "agent3@svc", "allUsers", []string{"/shared"}}}
+	bs := []aeBackend{{"b1", "agent1@svc", "alice@x", []string{"/a"}}, {"b2", "agent2@svc", "bob@x", []string{"/b"}}, {"b3", "agent3@svc", "allUsers", []string{"/shared"}},
+		{"b4", "agent4@svc", "dave@x", []string{"/d"}},     // never polled: not live
+		{"b5", "agent5@svc", "allUsers", []string{"/d"}},   // live, shared, same prefix as dave's own dead backend
+		{"b6", "agent6@svc", "alice@x", []string{"/a/deep"}}} // live, more specific than b1 for alice
 	// admin API first: non-admins get 403 and change nothing
 	js1, _ := json.Marshal(types.Backend{BackendID: "evil", BackendUser: "x@y", EndUser: "allUsers", PathPrefixes: []string{"/"}})
 	for i, who := range []struct {
@@ -101,6 +104,9 @@ func suiteAppAuth(e *vh.Env) {
 	}
 	// make b1, b2, b3 live and store one request under each of b1, b2 (the list calls return them)
 	l1, l2, l3 := goLive(e, bs[0]), goLive(e, bs[1]), goLive(e, bs[2])
+	goLive(e, bs[4])
+	goLive(e, bs[5])
+	live := hx("b1") + "," + hx("b2") + "," + hx("b3") + "," + hx("b5") + "," + hx("b6")
 	u1 := async(func() (int, http.Header, []byte) { return userCall("alice@x", false, "rid-alice", "POST", "/a/x", nil, []byte("alice-body")) })
 	u2 := async(func() (int, http.Header, []byte) { return userCall("bob@x", false, "rid-bob", "POST", "/b/y", nil, []byte("bob-body")) })
 	r1, ok1 := await(l1, 35*time.Second)
@@ -112,13 +118,14 @@ func suiteAppAuth(e *vh.Env) {
 	e.Op(fmt.Sprintf("store %s %s %s", hx("b1"), hx("rid-alice"), hx("alice@x")), "ok")
 	e.Op(fmt.Sprintf("store %s %s %s", hx("b2"), hx("rid-bob"), hx("bob@x")), "ok")
 	// end-user routing: who reaches which backend (observed through the datastore keys)
-	for i, u := range []struct{ user, path, want string }{{"alice@x", "/a/1", "b1"}, {"alice@x", "/b/1", ""}, {"bob@x", "/b/1", "b2"}, {"carol@x", "/a/1", ""}, {"carol@x", "/shared/z", "b3"}, {"alice@x", "/shared/z", "b3"}, {"", "/a/1", "401"}} {
+	for i, u := range []struct{ user, path, want string }{{"alice@x", "/a/1", "b1"}, {"alice@x", "/b/1", ""}, {"bob@x", "/b/1", "b2"}, {"carol@x", "/a/1", ""}, {"carol@x", "/shared/z", "b3"}, {"alice@x", "/shared/z", "b3"}, {"", "/a/1", "401"},
+		{"alice@x", "/a/deep/x", "b6"}, {"alice@x", "/a/dee", "b1"}, {"dave@x", "/d/1", ""}, {"carol@x", "/d/1", "b5"}, {"dave@x", "/shared/1", "b3"}} {
 		rid := fmt.Sprintf("route-%d", i)
 		ch := async(func() (int, http.Header, []byte) { return userCall(u.user, false, rid, "GET", u.path, nil, nil) })
 		var got string
 		waitFor(1500*time.Millisecond, func() bool {
 			snap := fake.snapshot()
-			for _, b := range []string{"b1", "b2", "b3"} {
+			for _, b := range []string{"b1", "b2", "b3", "b4", "b5", "b6"} {
 				if strings.Contains(snap, fmt.Sprintf("req:%q/%s", b, rid)) {
 					got = b
 					return true
@@ -137,15 +144,23 @@ func suiteAppAuth(e *vh.Env) {
 		if got != u.want {
 			e.Fail("C17:enduser-routing", fmt.Sprintf("user %q path %s was routed to %q, want %q", u.user, u.path, got, u.want), i, nil, got, u.want)
 		}
-		if got == "b1" || got == "b2" || got == "b3" {
-			owner := map[string]string{"b1": "alice@x", "b2": "bob@x", "b3": "allUsers"}[got]
+		if u.user != "" {
+			obs := "404"
+			if got != "" {
+				obs = hx(got)
+			}
+			e.Op(fmt.Sprintf("lookup %s %s %s", hx(u.user), hx(u.path), live), obs)
+		}
+		if got != "" && got != "401" {
+			owner := map[string]string{"b1": "alice@x", "b2": "bob@x", "b3": "allUsers", "b4": "dave@x", "b5": "allUsers", "b6": "alice@x"}[got]
 			if owner != u.user && owner != "allUsers" {
 				e.Fail("C17:enduser-reached-foreign-backend", fmt.Sprintf("user %q reached backend %s registered for %q", u.user, got, owner), i, nil, nil, nil)
 			}
 			// release the waiting client
-			agentCall(map[string]string{"b1": "agent1@svc", "b2": "agent2@svc", "b3": "agent3@svc"}[got], got, rid, "/agent/response", "POST", httpResponseBytes("200 OK", nil, []byte("ok")))
+			ag := "agent" + got[1:] + "@svc"
+			agentCall(ag, got, rid, "/agent/response", "POST", httpResponseBytes("200 OK", nil, []byte("ok")))
 			e.Op(fmt.Sprintf("store %s %s %s", hx(got), hx(rid), hx(u.user)), "ok")
-			e.Op(fmt.Sprintf("agent %s respond %s %s", hx(map[string]string{"b1": "agent1@svc", "b2": "agent2@svc", "b3": "agent3@svc"}[got]), hx(got), hx(rid)), "200")
+			e.Op(fmt.Sprintf("agent %s respond %s %s", hx(ag), hx(got), hx(rid)), "200")
 		}
 		e.Eval("route:"+u.user+u.path, true)
 		e.Count("enduser-routing")
